@@ -140,7 +140,7 @@ theorem flWs_atG {m : MigCmd} {loc loc' : BLoc} {ws : WSt} (hi : loc' = .pmcWait
 theorem inv_local {s : Sys} (h : Inv s) (g : Nat) (c' : Cp) (m' : Comps)
     (hl : LocalOK (s.cp g) (s.cm g) c' m') :
     Inv { s with cp := upd s.cp g c', cm := upd s.cm g m' } := by
-  obtain ⟨cfg, ng, caps, nf, frames, lg, logIds, pending, ph⟩ := h
+  obtain ⟨cfg, ng, caps, nf, frames, lg, logIds, pending, ph, rel⟩ := h
   have hcfg : ∀ g', CfgOK (upd s.cp g c' g') := by
     intro g'
     by_cases e : g' = g
@@ -149,7 +149,7 @@ theorem inv_local {s : Sys} (h : Inv s) (g : Nat) (c' : Cp) (m' : Comps)
   have noop : c' = s.cp g → m' = s.cm g →
       ({ s with cp := upd s.cp g c', cm := upd s.cm g m' } : Sys) = s := by
     intro e1 e2; rw [e1, e2, upd_id, upd_id]
-  refine ⟨hcfg, ng, caps, nf, frames, lg, logIds, ?_, ?_⟩
+  refine ⟨hcfg, ng, caps, nf, frames, lg, logIds, ?_, ?_, ⟨rel.ranges, rel.queued, rel.flying⟩⟩
   · intro r hr
     obtain ⟨a, b, c⟩ := pending r hr
     exact ⟨a.congr (by rfl), b.congr (by rfl), c⟩
@@ -291,14 +291,14 @@ theorem flagsAt_congr (p : PK) (r : MmuReq) (n : Nat) (σ σ' : Split) (g : Nat)
   · rw [if_neg e, if_neg (fun x => e (h.mp x))]
 
 theorem inv_toCp {s : Sys} (h : Inv s) : Inv (step s .toCp) := by
-  obtain ⟨cfg, ng, caps, nf, frames, lg, logIds, pending, ph⟩ := h
+  obtain ⟨cfg, ng, caps, nf, frames, lg, logIds, pending, ph, rel⟩ := h
   simp only [step]
   split
-  · exact ⟨cfg, ng, caps, nf, frames, lg, logIds, pending, ph⟩
+  · exact ⟨cfg, ng, caps, nf, frames, lg, logIds, pending, ph, rel⟩
   · rename_i g0 c rest hout
     by_cases hroom : (s.cp g0).drvIn.length < (s.cp g0).capIn
     rotate_left
-    · rw [if_neg hroom]; exact ⟨cfg, ng, caps, nf, frames, lg, logIds, pending, ph⟩
+    · rw [if_neg hroom]; exact ⟨cfg, ng, caps, nf, frames, lg, logIds, pending, ph, rel⟩
     · rw [if_pos hroom]
       have hcfg : ∀ g', CfgOK (upd s.cp g0 { s.cp g0 with drvIn := (s.cp g0).drvIn ++ [c] } g') := by
         intro g'
@@ -308,7 +308,7 @@ theorem inv_toCp {s : Sys} (h : Inv s) : Inv (step s .toCp) := by
           exact ⟨this.hCU, this.hAT, this.hTLB, this.hCache, this.capIn, this.capDrv, this.capRdma, this.capPMC,
             this.capCU, this.capAT, this.capTLB, this.capCache, this.small⟩
         · rw [upd_other _ _ _ _ e]; exact cfg g'
-      refine ⟨hcfg, ng, caps, nf, frames, lg, logIds, ?_, ?_⟩
+      refine ⟨hcfg, ng, caps, nf, frames, lg, logIds, ?_, ?_, ⟨rel.ranges, rel.queued, rel.flying⟩⟩
       · intro r hr
         obtain ⟨a, b, c⟩ := pending r hr
         exact ⟨a.fr (by rfl) (by rfl) (by rfl), b.fr (by rfl) (by rfl), c⟩
@@ -408,21 +408,21 @@ theorem cfgOK_drvOut {c : Cp} (h : CfgOK c) (l : List Ans) : CfgOK { c with drvO
   ⟨h.hCU, h.hAT, h.hTLB, h.hCache, h.capIn, h.capDrv, h.capRdma, h.capPMC, h.capCU, h.capAT, h.capTLB, h.capCache, h.small⟩
 
 theorem inv_toDrv {s : Sys} (h : Inv s) (g : Nat) : Inv (step s (.toDrv g)) := by
-  obtain ⟨cfg, ng, caps, nf, frames, lg, logIds, pending, ph⟩ := h
+  obtain ⟨cfg, ng, caps, nf, frames, lg, logIds, pending, ph, rel⟩ := h
   simp only [step]
   split
-  · exact ⟨cfg, ng, caps, nf, frames, lg, logIds, pending, ph⟩
+  · exact ⟨cfg, ng, caps, nf, frames, lg, logIds, pending, ph, rel⟩
   · rename_i a rest hout
     by_cases hroom : s.drv.gpuIn.length < s.drv.capGpuIn
     rotate_left
-    · rw [if_neg hroom]; exact ⟨cfg, ng, caps, nf, frames, lg, logIds, pending, ph⟩
+    · rw [if_neg hroom]; exact ⟨cfg, ng, caps, nf, frames, lg, logIds, pending, ph, rel⟩
     · rw [if_pos hroom]
       have hcfg : ∀ g', CfgOK (upd s.cp g { s.cp g with drvOut := rest } g') := by
         intro g'
         by_cases e : g' = g
         · subst e; rw [upd_same]; exact cfgOK_drvOut (cfg g') rest
         · rw [upd_other _ _ _ _ e]; exact cfg g'
-      refine ⟨hcfg, ng, caps, nf, frames, lg, logIds, ?_, ?_⟩
+      refine ⟨hcfg, ng, caps, nf, frames, lg, logIds, ?_, ?_, ⟨rel.ranges, rel.queued, rel.flying⟩⟩
       · intro r hr
         obtain ⟨a, b, c⟩ := pending r hr
         exact ⟨a.fr (by rfl) (by rfl) (by rfl), b.fr (by rfl) (by rfl), c⟩
@@ -714,7 +714,13 @@ theorem inv_step {s : Sys} (h : Inv s) (m : Mv) (hm : m.ok s) : Inv (step s m) :
 
 theorem inv_init {s : Sys} (h : Init s) : Inv s := by
   obtain ⟨m0, m1, hw⟩ := h.w
-  refine ⟨h.cfg, h.ngpu, h.caps, by rw [h.drv], h.frames, h.lg, by rw [h.drv]; rfl, ?_, ?_⟩
+  refine ⟨h.cfg, h.ngpu, h.caps, by rw [h.drv], h.frames, h.lg, by rw [h.drv]; rfl, ?_, ?_, ?_⟩
+  rotate_left 2
+  · refine ⟨h.ranges, ?_, ?_⟩
+    · intro m hm
+      rw [h.drv] at hm; cases hm
+    · intro ho
+      rw [h.drv] at ho; cases ho
   · intro r hr
     rw [h.drv] at hr; cases hr
   · refine Phase.idle ?_ ?_ ?_ ?_
